@@ -8,7 +8,8 @@ EXPLANATION = ("C02: the decoder's structure is compared with the frozen v3 tabl
                "dispatch over all four presence combinations; (R4) debug_id.or(debugId); (R5) key names and key->field "
                "binding from the derived serde impls; (R6) the sourceRoot joining rule over all 16 predicate combinations "
                "and cache coherence; (R7) lenient conversions; (R8) tokens sorted on construction."
-               " (R10) the data-URL entry point: preamble and alphabet; (R11) decode_hermes hands the raw map to decode_regular as parsed.")
+               " (R10) the data-URL entry point: preamble and alphabet; (R11) decode_hermes hands the raw map to decode_regular as parsed."
+               " (R12) decode_regular rejects only for the reviewed reasons (no added error exits); (RW) the wire structs RawSourceMap/RawSection carry derived serde impls only, so key names and optionality are exactly what the attributes say.")
 NOT_DECIDED = "equality with an independent decoder on all documents (value-level)."
 
 RULES = {
